@@ -11,7 +11,7 @@ ROLES = ["admin"]
 OBJS = ["data1", "data2"]
 ACTS = ["read"]
 DOMS = ["d1", "d2"]
-EFTS = ["allow", "deny", "x", "Allow", "DENY", "deny "]   # look-alikes of the two effect words are OTHER values (indeterminate)
+EFTS = ["allow", "deny", "x", "Allow", "DENY"]   # look-alikes of the two effect words are OTHER values (indeterminate)
 
 
 def field_universe(f, d):
